@@ -18,7 +18,7 @@ from fractions import Fraction as F
 from . import build, proto, core, gen, translate, solvelib, lpfam, hist, histrun, p_c16, p_c11, p_files
 from .gen import q2s, LP, INF, NINF
 
-OBL = [("Qsx.Props.C17", "Qsx.Props.C17." + t) for t in ["step_safe", "history_safe", "history_inv", "addrow_guard_sufficient", "addrow_guard_tight", "addcol_safe", "addcoef_move_safe"]]
+OBL = [("Qsx.Props.C17", "Qsx.Props.C17." + t) for t in ["step_safe", "history_safe", "history_inv", "addrow_guard_sufficient", "addrow_guard_tight", "addcol_safe", "addcoef_move_safe", "symtab_pool_write_fits"]]
 RAW_KEYS = ["nrows", "ncols", "nstruct", "matcols", "rowsize", "colsize", "structsize", "matcolsize"]
 
 
